@@ -11,3 +11,14 @@ package config
 //@   props C13 C14
 //@   ensures result.inverted == !s.inverted && result.inner == s.inner
 //@   assigns nothing
+
+// C13: the pair sequence handed to the one-to-one check is the configured list, complete and in order - every
+// configured pair is offered (also an identity pair: it takes part in the injectivity check), exactly as configured.
+//@ extern $yield@(*StringTranslator).AsLocalToRemoteBiMap$1
+//@   assigns nothing
+//@ contract (*StringTranslator).AsLocalToRemoteBiMap$1
+//@   props C13
+//@   requires config != nil
+//@   counts yield
+//@   callpre yield: @pair_as_configured: $0 == mapping.Local && $1 == mapping.Remote
+//@   loop 1 invariant @every_pair_offered: calls(yield) == $i
